@@ -163,6 +163,73 @@ func script(b *gbytes.Blocks, bs int) (msg string) {
 	return ""
 }
 
+// bigGeometry: block sizes that are page multiples but no powers of two (3, 5 pages) have a number of blocks per segment
+// that is no power of two either; with tens of thousands of live blocks every index computation is exercised beyond the
+// first 32768 / 65536 indexes. The backing array is 1-3 GiB of untouched (lazily mapped) zero memory.
+func bigGeometry() (cases int) {
+	ps := os.Getpagesize()
+	for _, pages := range []int{3, 5} {
+		bs := pages * ps
+		func() {
+			defer func() {
+				if r := recover(); r != nil {
+					run.Violation("geometry big panic", fmt.Sprintf("block size %d: %v", bs, r), map[string]any{"blockSize": bs})
+				}
+			}()
+			buf := gbytes.NewInMemBytes(int(segSize(bs)))
+			b, err := gbytes.NewBlocks(bs, buf, true)
+			if err != nil {
+				run.Violation("geometry big rejected", fmt.Sprintf("block size %d (%d pages) over one full segment was rejected: %v", bs, pages, err), nil)
+				return
+			}
+			n := 70000
+			if n > b.Count() {
+				n = b.Count()
+			}
+			got := make(map[int]bool, n)
+			for i := 0; i < n; i++ {
+				k, err := b.ArrangeBlock()
+				if err != nil || k < 0 || k >= b.Count() || got[k] {
+					run.Violation("geometry big double-allocation", fmt.Sprintf("block size %d: allocation #%d returned %d (err %v, handed out before: %v)", bs, i, k, err, got[k]), map[string]any{"blockSize": bs})
+					return
+				}
+				got[k] = true
+			}
+			var freed []int
+			for _, k := range []int{0, 7, 8, 4095, 4096, 32767, 32768, 32775, 65535, 65536, n - 1} {
+				if !got[k] {
+					continue
+				}
+				if err := b.FreeBlock(k); err != nil {
+					run.Violation("geometry big free", fmt.Sprintf("block size %d: FreeBlock(%d) of an allocated block: %v", bs, k, err), map[string]any{"blockSize": bs})
+					return
+				}
+				if err := b.FreeBlock(k); err == nil {
+					run.Violation("geometry big double-free", fmt.Sprintf("block size %d: second FreeBlock(%d) accepted", bs, k), map[string]any{"blockSize": bs})
+					return
+				}
+				freed = append(freed, k)
+				delete(got, k)
+			}
+			if b.Available() != b.Count()-len(got) {
+				run.Violation("geometry big available", fmt.Sprintf("block size %d: Available=%d with %d of %d blocks held", bs, b.Available(), len(got), b.Count()), map[string]any{"blockSize": bs})
+				return
+			}
+			back := map[int]bool{}
+			for range freed {
+				k, err := b.ArrangeBlock()
+				if err != nil || got[k] || back[k] {
+					run.Violation("geometry big double-allocation", fmt.Sprintf("block size %d: after freeing %v ArrangeBlock returned %d (err %v) which is held", bs, freed, k, err), map[string]any{"blockSize": bs})
+					return
+				}
+				back[k] = true
+			}
+			cases++
+		}()
+	}
+	return
+}
+
 // ---------------------------------------------------------------------------
 // part E2: disjointness of block ranges and headers
 
@@ -763,6 +830,7 @@ func main() {
 	if !run.IsWorker() && run.Replay == "" {
 		t0 := time.Now()
 		ge, acc, gs := geometry()
+		ge += bigGeometry()
 		t1 := time.Now()
 		pairs := disjoint()
 		st, tr, fix, ss := sequential()
